@@ -72,6 +72,9 @@ type Run struct {
 	Witnesses []string            `json:"witnesses"` // Reach labels that must be reached
 	Twin      bool                `json:"twin"`      // vacuity twin: the run must end in a violation of label "twin"
 	Bound     string              `json:"bound"`     // human-readable bound statement
+	// Summarised: the harness replaces pure callees by over-approximating summaries in this run, so
+	// no differential traces are taken (counterexamples are still replayed natively)
+	Summarised bool `json:"summarised"`
 }
 
 func loadSpec(id string) (*Spec, string, error) {
